@@ -57,7 +57,16 @@ pub fn run_parallel(opts: &Opts, prop: &str, rule: &str, total: u64,
                     if ctx.rep.full() { break; }
                     // strided global index: worker w handles w, w+n, w+2n, ...
                     let t0 = std::time::Instant::now();
-                    f(&mut ctx, w as u64 + i * nthreads as u64);
+                    let idx = w as u64 + i * nthreads as u64;
+                    // a panic of the harness itself while it handles what the library returned (e.g. a String that is
+                    // not valid UTF-8) is reported with the case that caused it instead of killing the run
+                    let r = std::panic::catch_unwind(std::panic::AssertUnwindSafe(|| f(&mut ctx, idx)));
+                    if r.is_err() {
+                        let d = crate::real::CALL_DESC.lock().map(|d| d.clone()).unwrap_or_default();
+                        ctx.rep.violation(format!("{prop}: the harness could not process what the library returned in case {idx} (last library call: {})", d.chars().take(300).collect::<String>()),
+                            vec![("kind".into(), "property".into()), ("case".into(), idx.to_string()), ("last_call".into(), d), ("theorem".into(), "C16_valid_strings / C03".into())]);
+                        ctx.drv = driver::Driver::spawn(&driver_path);
+                    }
                     let dt = t0.elapsed().as_millis() as u64;
                     if dt > 1500 { ctx.rep.bump("slow_cases_over_1500ms"); if ctx.rep.notes.len() < 3 { ctx.rep.notes.push(format!("slow case index {} took {} ms", w as u64 + i * nthreads as u64, dt)); } }
                 }
